@@ -249,6 +249,34 @@ class Obj:
         return False
 
 
+class NTuple(tuple):
+    """A NamedTuple instance: a tuple (indexing, equality with plain tuples) whose fields are also reachable by name."""
+
+    def __new__(cls, values, names=(), qual=""):
+        o = super().__new__(cls, values)
+        o.names = tuple(names)
+        o.qual = qual
+        return o
+
+    def field(self, name):
+        return self[self.names.index(name)]
+
+    def __deepcopy__(self, memo):
+        import copy
+
+        return NTuple([copy.deepcopy(v, memo) for v in self], self.names, self.qual)
+
+
+class Partial:
+    """functools.partial(callee, *args, **kwargs)"""
+
+    def __init__(self, fn, args, kwargs):
+        self.fn, self.args, self.kwargs = fn, tuple(args), dict(kwargs)
+
+    def __repr__(self):
+        return f"<partial {vkey(self.fn)}>"
+
+
 class ModelFn:
     """A callable supplied by a rule as a model of an opaque function value."""
 
